@@ -123,6 +123,11 @@ pub trait Interface: ErrorHandler {
                     header = call_header;
                 }
             }
+            else {
+                // An empty program message unit is always ended by a terminator,
+                // which resets the header to the root node as well.
+                header = self.root_node();
+            }
 
             input = i;
         }
